@@ -15,7 +15,7 @@ contracts/koszul.py).
 
 import z3
 
-from pyvc.core import SV, KeyIter, SymDict, SymObj, SymSeq, TBool, TInt, TOpaque, Unsupported
+from pyvc.core import SV, KeyIter, SymDict, SymObj, SymSeq, TBool, TInt, TOpaque, Unsupported  # noqa: F401
 from pyvc.interp import BuiltinVal, I
 
 SEC = TOpaque("Sector")
@@ -158,3 +158,159 @@ def fresh_result_clauses(res, x, snap):
             out.append((f"result_{f}_not_shared", res.fields.get(f) is not x.fields.get(f)))
         out.append(("result_same_class", res.cls is x.cls))
     return out
+
+
+# ----------------------------------------------------------------------------
+# re-keying ghosts (transpose / dagger) and reusable loop contracts
+
+perm_sec = z3.Function("perm_sec", SEC.sort(), PERM.sort(), SEC.sort())
+unperm_sec = z3.Function("unperm_sec", SEC.sort(), PERM.sort(), SEC.sort())
+perm_idx = z3.Function("perm_idx", IDX.sort(), PERM.sort(), IDX.sort())
+tr = z3.Function("blk_transpose", BLK.sort(), PERM.sort(), BLK.sort())
+conj_idx = z3.Function("conj_idx", IDX.sort(), IDX.sort())
+neg_chg = z3.Function("neg_chg", CHG.sort(), CHG.sort())
+par_chg = z3.Function("par_chg", CHG.sort(), z3.IntSort())
+dag_odd = z3.Function("dag_odd", ODD.sort(), ODD.sort())
+len_odd = z3.Function("len_odd", ODD.sort(), z3.IntSort())
+par_at = z3.Function("par_at", PAR.sort(), z3.IntSort(), z3.IntSort())
+REV = z3.Const("perm_full_reversal", PERM.sort())
+
+
+def rekey_axioms():
+    s = z3.Const("s!rk", SEC.sort())
+    a = z3.Const("a!rk", PERM.sort())
+    p = z3.Const("p!rk", PAR.sort())
+    i = z3.Int("i!rk")
+    b = z3.Const("b!rk", BLK.sort())
+    return block_axioms() + [
+        # permuted(., axes) is a bijection on sectors when axes is a permutation (sequence algebra)
+        z3.ForAll([s, a], unperm_sec(perm_sec(s, a), a) == s, patterns=[perm_sec(s, a)]),
+        z3.ForAll([s, a], perm_sec(unperm_sec(s, a), a) == s, patterns=[unperm_sec(s, a)]),
+        # definition of the ghost `parities`
+        z3.ForAll([s, i], par_at(parities(s), i) == par(sec_at(s, i)), patterns=[par_at(parities(s), i)]),
+        # numpy: elementwise / structural primitives commute with the sign of a block
+        z3.ForAll([b, a], tr(neg(b), a) == neg(tr(b, a)), patterns=[tr(neg(b), a)]),
+        z3.ForAll([b], conjb(neg(b)) == neg(conjb(b)), patterns=[conjb(neg(b))]),
+    ]
+
+
+def install_rekey_hooks(it, axes_seq_token=None):
+    """summaries for permuted / numpy primitives / label + charge helpers on opaque values"""
+    install_hooks(it)
+    it.invertible = {"perm_sec": unperm_sec}
+
+    def to_perm(v):
+        if v is None:
+            return NONE_PERM
+        if isinstance(v, SV) and v.ty == PERM:
+            return v.t
+        if axes_seq_token is not None and v is axes_seq_token[0]:
+            return axes_seq_token[1]
+        raise Unsupported("permutation argument is neither opaque nor the tracked axes value")
+
+    it.to_perm = to_perm
+
+    def permuted(it_, a, k):
+        x, ax = a
+        p = to_perm(ax)
+        if isinstance(x, SV) and x.ty == SEC:
+            return SV(perm_sec(x.t, p), SEC)
+        if isinstance(x, SV) and x.ty == IDX:
+            return SV(perm_idx(x.t, p), IDX)
+        raise Unsupported("permuted() of unexpected value")
+
+    it.summaries["abelian_core.permuted"] = permuted
+    old_cpp = it.summaries["symmetries.calc_phase_permutation"]
+
+    def cpp(it_, a, k):
+        perm = a[1] if len(a) > 1 else k.get("perm", None)
+        if perm is not None and not (isinstance(perm, SV) and perm.ty == PERM):
+            perm = SV(to_perm(perm), PERM)
+        return old_cpp(it_, [a[0], perm], {})
+
+    it.summaries["symmetries.calc_phase_permutation"] = cpp
+
+    def get_lib_fn(it_, a, k):
+        name = a[1]
+        if name == "transpose":
+            def f(i2, a2, k2):
+                p = to_perm(a2[1]) if len(a2) > 1 else REV
+                return SV(tr(a2[0].t, p), BLK)
+            return BuiltinVal("np.transpose", f)
+        if name == "conj":
+            return BuiltinVal("np.conj", lambda i2, a2, k2: SV(conjb(a2[0].t), BLK))
+        raise Unsupported(f"ar.get_lib_fn(.., {name!r})")
+
+    it.externals["ar.get_lib_fn"] = get_lib_fn
+    it.summaries["block_core.BlockBase.backend"] = lambda it_, a, k: "numpy"
+    it.summaries["fermionic_core.oddpos_dag"] = lambda it_, a, k: SV(dag_odd(a[0].t), ODD)
+    it.opaque_len = {"OddPos": lambda v: SV(len_odd(v.t), TInt)}
+    it.opaque_getitem["Parities"] = lambda it_, obj, key: SV(par_at(obj.t, I(key)), TInt)
+
+
+def symmetry_with_sign(it):
+    s = abstract_symmetry(it)
+
+    def parity(it_, a, k):
+        v = a[0]
+        if isinstance(v, SV) and v.ty == CHG:
+            return SV(par_chg(v.t), TInt)
+        return SV(par(I(v)), TInt)
+
+    s.fields["parity"] = BuiltinVal("symmetry.parity", parity)
+    s.fields["sign"] = BuiltinVal("symmetry.sign", lambda it_, a, k: SV(neg_chg(a[0].t), CHG))
+    return s
+
+
+def spec_phase_global(FA="fermionic_core.FermionicArray"):
+    """loop contract of FermionicArray.phase_global relative to the table at loop entry"""
+    from pyvc.builtins_model import LoopSpec
+
+    def cap(it, env):
+        ph = env.vars["new"].fields["_phases"]
+        return {"P": (ph.has, ph.val)}
+
+    def inv(it, env, g):
+        P0 = g["pre"]["P"]
+        ph = env.vars["new"].fields["_phases"]
+        vis = g["vis"]
+        s = z3.Const("s!pg", SEC.sort())
+        return [
+            ("visited_negated", z3.ForAll([s], z3.Implies(z3.Select(vis, s), eff(ph.has, ph.val, s) == -eff(P0[0], P0[1], s)))),
+            ("unvisited_untouched", z3.ForAll([s], z3.Implies(z3.Not(z3.Select(vis, s)), z3.And(z3.Select(ph.has, s) == z3.Select(P0[0], s), z3.Select(ph.val, s) == z3.Select(P0[1], s))))),
+            ("table_values_pm1", z3.ForAll([s], z3.Implies(z3.Select(ph.has, s), z3.Or(z3.Select(ph.val, s) == 1, z3.Select(ph.val, s) == -1)))),
+        ]
+
+    return LoopSpec(carried={}, cells=[lambda env: env.vars["new"].fields["_phases"]], invariant=inv, pre_capture=cap)
+
+
+def flip_parity(axs, s):
+    """(sum over the listed axes of the parity of sector s there) % 2 -- same term the executor builds"""
+    from pyvc.builtins_model import SUM_fn
+
+    i = z3.Int("mi!F")
+    return SUM_fn()(z3.Lambda([i], par(sec_at(s, z3.Select(axs.arr, i)))), axs.length) % 2
+
+
+def spec_phase_flip():
+    from pyvc.builtins_model import LoopSpec
+
+    def cap(it, env):
+        ph = env.vars["new_phases"]
+        return {"P": (ph.has, ph.val)}
+
+    def inv(it, env, g):
+        P0 = g["pre"]["P"]
+        np_ = env.vars["new_phases"]
+        axs = env.vars["axs"]
+        vis = g["vis"]
+        s = z3.Const("s!pf", SEC.sort())
+        e0 = eff(P0[0], P0[1], s)
+        e1 = eff(np_.has, np_.val, s)
+        return [
+            ("visited_flipped", z3.ForAll([s], z3.Implies(z3.Select(vis, s), e1 == e0 * (1 - 2 * flip_parity(axs, s))))),
+            ("unvisited_untouched", z3.ForAll([s], z3.Implies(z3.Not(z3.Select(vis, s)), z3.And(z3.Select(np_.has, s) == z3.Select(P0[0], s), z3.Select(np_.val, s) == z3.Select(P0[1], s))))),
+            ("table_values_pm1", z3.ForAll([s], z3.Implies(z3.Select(np_.has, s), z3.Or(z3.Select(np_.val, s) == 1, z3.Select(np_.val, s) == -1)))),
+        ]
+
+    return LoopSpec(carried={"new_phases": "inplace"}, invariant=inv, pre_capture=cap)
